@@ -9,8 +9,8 @@
                     is in the table `legal` (Pending -> Running/Launching/Skipped/Terminating/Error, Running ->
                     Restarting/Terminating/Completed/Error, Restarting -> Running/..., Terminating ->
                     Completed/Error/Restarting/Skipped; terminal statuses have no successor), or s0 = Pending is
-                    written for a never-launched instance that was created by StartProcess/RestartProcess, or
-                    Pending is written over Pending;
+                    written for an instance that has never launched (the creation of an instance IS the start, by
+                    Run()'s automatic start-up or by StartProcess/RestartProcess), or Pending is written over Pending;
    (a2) mon_term    at every status write of Completed / Skipped / Error: no command of that instance is alive
                     (every launched command has exited);
    (b)  mon_launch  at every successful launch (ELaunch true): the status reported for the name is a running
@@ -23,18 +23,19 @@
    first launch)
    * (a2) and (c): for ALL accepted histories, no window hypothesis, no hypothesis on the configuration.
    * (a1) and (b): still FALSE of the model without hypotheses, outside all known windows
-     (C09_refuted_stale_stop, C09_refuted_start_before_run).  They are proved for configurations with unique
-     process names (wf_confs) and histories that (1) stay out of the duplicate-instance window w_dup (F25) and
-     (2) satisfy the decidable assumption monitor `asm` (C09_assumptions), which now has two clauses:
+     (C09_refuted_stale_stop).  They are proved, for every configuration, for the histories that (1) stay out
+     of the duplicate-instance window w_dup (F25) and (2) satisfy the decidable assumption monitor `asm`
+     (C09_assumptions), which has ONE clause left:
        - Terminating is only written over a running status while a command of that instance is alive and
          not by the stopped-while-Pending path (i.e. the stop's check-then-act gap was not hit: this
          excludes the windows F26 late, F20/F21 commit, F37 sdlag, F38 zombie, F32 stale as far as status
-         writes are concerned, and a stop execution that still holds the id of a finished instance);
-       - Run()'s spawn loop creates only the FIRST instance of a name (no StartProcess of that name
-         finished before Run reached it).
-     The former clauses "a process created by Run is not disabled" and "the goroutine of an instance begins
-     only after Pending was written" are now invariants of the model (proved: p_staged, TI in Sup/RelC09b.v);
-     the three histories that refuted them are rejected by the hardened model (Examples below). *)
+         writes are concerned, and a stop execution that still holds the id of a finished instance).
+     History of the hypotheses: "a process created by Run is not disabled" and "the goroutine of an instance
+     begins only after Pending was written" became invariants of the hardened model (p_staged); "Run()'s spawn
+     loop creates only the first instance of a name" and wf_confs disappeared when the monitor was changed to
+     excuse the initial Pending of ANY never-launched instance (round 3): the history that needed them
+     (StartProcess(n) completes before Run() spawns n) now satisfies the monitor
+     (Example C09_start_before_run_now_holds). *)
 From Coq Require Import List ZArith NArith Bool.
 From PC.Base Require Import Assoc.
 From PC.Sup Require Import Model Monitors Sim LemC09 RelC09 RelC09b.
@@ -79,7 +80,6 @@ Print Assumptions C09_terminal_not_alive_declarative.
 
 (* (a1) + (b): legal transitions and running status at launch, under the assumption monitor, outside w_dup *)
 Theorem C09_legal_and_launch_partial : forall cs ord evs s,
-  wf_confs cs = true ->
   accept (init cs ord) evs = Some s -> C09_assumptions cs evs = true -> w_dup (final_obs cs evs) = false ->
   holds' cs mon_legal evs = true /\ holds' cs mon_launch evs = true.
 Proof. exact C09_legal_launch_holds. Qed.
@@ -87,7 +87,6 @@ Print Assumptions C09_legal_and_launch_partial.
 
 (* the whole monitor *)
 Theorem C09_main_partial : forall cs ord evs s,
-  wf_confs cs = true ->
   accept (init cs ord) evs = Some s -> C09_assumptions cs evs = true -> w_dup (final_obs cs evs) = false ->
   holds_C09 cs evs = true.
 Proof. exact C09_main_partial_lemma. Qed.
@@ -168,7 +167,8 @@ Qed.
 Print Assumptions C09_refuted_stale_stop.
 
 (* StartProcess(n) runs to completion before Run()'s spawn loop reaches n: Run then writes Pending over
-   Completed for an instance that was not created by an explicit start request *)
+   Completed for a new, never launched instance.  This refuted the monitor before round 3 (it excused the initial
+   Pending only for instances created by an API call); the creation of an instance is a start, so it is legal now. *)
 Definition start_before_run_evs : list (tid * event) :=
  [(3, EApiBegin (OpStart 1)); (3, ERegGet 1 None); (3, EStartChecked 1 false); (3, ENewInst 1 1); (3, EState 1 SPending);
   (3, ERegAdd 1 1); (3, ESpawn 1 1); (3, EApiReturn true);
@@ -177,14 +177,16 @@ Definition start_before_run_evs : list (tid * event) :=
   (4, EProcEnd 1 SCompleted); (4, EState 1 SCompleted); (4, EProcEnded 1 SCompleted); (4, ERunReturned 0%Z);
   (4, EDoneAdd 1); (4, EInstDone); (4, EInstExit); (4, ERegDel 1); (4, EInstGone);
   (0, EApiBegin OpRun); (0, ENewInst 2 1); (0, EState 2 SPending)].
-Theorem C09_refuted_start_before_run : exists cs ord evs s,
-  wf_confs cs = true /\ accept (init cs ord) evs = Some s /\ any_window (final_obs cs evs) = false /\ holds_C09 cs evs = false.
+Example C09_start_before_run_now_holds :
+  (exists s, accept (init [(1, conf_plain)] false) start_before_run_evs = Some s) /\
+  C09_assumptions [(1, conf_plain)] start_before_run_evs = true /\
+  w_dup (final_obs [(1, conf_plain)] start_before_run_evs) = false /\
+  holds_C09 [(1, conf_plain)] start_before_run_evs = true.
 Proof.
-  exists [(1, conf_plain)], false, start_before_run_evs.
-  destruct (accept (init [(1, conf_plain)] false) start_before_run_evs) as [s|] eqn:E; [|vm_compute in E; discriminate].
-  exists s. repeat split; vm_compute; reflexivity.
+  split.
+  - destruct (accept (init [(1, conf_plain)] false) start_before_run_evs) as [s|] eqn:E; [eauto|vm_compute in E; discriminate].
+  - repeat split; vm_compute; reflexivity.
 Qed.
-Print Assumptions C09_refuted_start_before_run.
 
 (* ---- non-vacuity: a 45-event accepted history (launch, failure, back-off, relaunch, API stop of the running
    command, completion, Run returns) that satisfies every hypothesis of C09_main_partial ------------------- *)
@@ -201,13 +203,13 @@ Definition example_evs : list (tid * event) :=
   (1, EDoneAdd 1); (1, EInstDone); (1, EInstExit); (1, ERegDel 1); (1, EInstGone); (0, ERunReturn 0%Z); (0, EApiReturn true)].
 
 Example C09_nonvacuous :
-  length example_evs = 45%nat /\ wf_confs example_cs = true /\
+  length example_evs = 45%nat /\
   (exists s, accept (init example_cs false) example_evs = Some s) /\
   C09_assumptions example_cs example_evs = true /\
   w_dup (final_obs example_cs example_evs) = false /\
   holds_C09 example_cs example_evs = true.
 Proof.
-  split; [reflexivity|]. split; [reflexivity|]. split.
+  split; [reflexivity|]. split.
   - destruct (accept (init example_cs false) example_evs) as [s|] eqn:E; [eauto|vm_compute in E; discriminate].
   - repeat split; vm_compute; reflexivity.
 Qed.
